@@ -65,7 +65,7 @@ CertificateStatus(m) == Handshake(22, U8(m.status_type) \o Vec3(m.response))
 \* RFC 8446 4.1.4: a HelloRetryRequest IS a ServerHello (handshake type 2) whose random is the fixed value below
 HRR_RANDOM == <<207, 33, 173, 116, 229, 154, 97, 17, 190, 29, 140, 2, 30, 101, 184, 145,
                 194, 162, 17, 22, 122, 187, 140, 94, 7, 158, 9, 226, 200, 168, 51, 156>>
-HelloRetryRequest(m) == Handshake(2, U16(m.version) \o HRR_RANDOM \o Vec1(m.session_id) \o U16(m.cipher_suite)
+HelloRetryRequest(m) == Handshake(2, U16(m.version) \o m.random \o Vec1(m.session_id) \o U16(m.cipher_suite)
                                      \o U8(m.compression_method) \o Extensions(m.extensions))
 ApplicationData(m) == m.data                                                        \* RFC 5246 10: opaque to the record layer
 
@@ -140,6 +140,13 @@ Ssl2ClientHello(m) == Ssl2Record(1, Ssl2ClientHelloBody(m))
 Ssl2ServerHello(m) == Ssl2Record(4, Ssl2ServerHelloBody(m))
 \* the same message in the three-byte-header form with pad octets of padding (a second conformant encoding)
 EncSsl2Padded(kind, m, pad) == Ssl2RecordPadded(Ssl2Type(kind), Ssl2Body(kind, m), pad)
+
+\* a hello that carries an extensions block of length zero (RFC 5246 7.4.1.2: extensions<0..2^16-1> may be present and empty)
+HelloEmptyExtensions(kind, m) == IF kind = "client_hello" THEN Handshake(1, ClientHelloBody(m) \o <<0, 0>>)
+                                 ELSE Handshake(2, ServerHelloBody(m) \o <<0, 0>>)
+\* second conformant encodings of an abstract message, by form
+EncAlt(form, kind, m, pad) == CASE form = "ssl2-padded" -> EncSsl2Padded(kind, m, pad)
+                                [] form = "empty-extensions-block" -> HelloEmptyExtensions(kind, m)
 
 Enc(kind, m) ==
   CASE kind = "record"            -> Record(m)
